@@ -38,7 +38,7 @@ def mc_configs(tier):
         c.append(("once3_skip", dict(BASE, Skips=True), SAFETY, [], "Spec", True, ["C01", "C08"]))
         c.append(("once3_sig", dict(BASE, Signals=True), SAFETY, [], "Spec", True, ["C10", "C11"]))
         c.append(("once3_live", dict(BASE), [], ["Terminates"], "FairSpec", False, ["C04"]))
-        c.append(("watch3", dict(BASE, Watch=True, MaxChanges=1), SAFETY, [], "Spec", False, ["C06", "C01"]))
+        c.append(("watch2_c3", dict(BASE, N=2, Watch=True, MaxChanges=3, Inherit=True, Failures=True), SAFETY, [], "Spec", False, ["C06", "C01", "C07"]))
         c.append(("watch2_live", dict(BASE, N=2, Watch=True, MaxChanges=2, Inherit=True), [], ["Converges"], "FairSpec",
                   False, ["C06"]))
         c.append(("cap3", dict(BASE, CapInbox=1), SAFETY, [], "Spec", True, ["C04", "C10"]))
